@@ -287,3 +287,24 @@ Lemma shutdown_possible_run ls s h :
   run init ls = Some s -> h_pc (shut s h) = H0 ->
   exists s', run s [ShutEnter h; ShutClose h] = Some s' /\ done_closed s' = true.
 Proof. intros H. apply shutdown_always_possible. now exists ls. Qed.
+
+(* a state after Shutdown in which no internal step is enabled (the end of a maximal execution) has
+   nothing left to do: the loop has exited and every Subscribe, Publish and Shutdown call returned *)
+Lemma maximal_finished_run ls s :
+  run init ls = Some s -> done_closed s = true ->
+  (forall l, internal l = true -> step s l = None) ->
+  pc s = Exited /\ (forall i, sub_pending (s_pc (sub s i)) = false)
+  /\ (forall p, pub_pending (p_pc (pub s p)) = false) /\ (forall h, shut_pending (h_pc (shut s h)) = false).
+Proof.
+  intros H Hd Hmax.
+  assert (~ unfinished s) as N.
+  { intros U. destruct (progress_run ls s H Hd U) as (l & Hi & Hs). apply Hs. now apply Hmax. }
+  repeat split.
+  - destruct (pc s) eqn:E; try reflexivity; exfalso; apply N; left; rewrite E; discriminate.
+  - intros i. destruct (sub_pending (s_pc (sub s i))) eqn:E; [|reflexivity].
+    exfalso. apply N. right. left. eauto.
+  - intros p. destruct (pub_pending (p_pc (pub s p))) eqn:E; [|reflexivity].
+    exfalso. apply N. right. right. left. eauto.
+  - intros h. destruct (shut_pending (h_pc (shut s h))) eqn:E; [|reflexivity].
+    exfalso. apply N. right. right. right. eauto.
+Qed.
